@@ -3,6 +3,7 @@ package props
 import (
 	"bytes"
 	"fmt"
+	"github.com/dave/dst/decorator"
 	"go/format"
 	"go/token"
 	"regexp"
@@ -30,7 +31,7 @@ func init() {
 			"go/format (go1.23.5) is the reference for token order and comment order",
 			"when gofmt rewrites comment text (doc-comment reformatting) and dst's output matches neither gofmt's nor the input's comments the case is counted inconclusive, not violated",
 		},
-		Required: map[string]int{"transforms": 13},
+		Required: map[string]int{"transforms": 14},
 	})
 }
 
@@ -407,6 +408,59 @@ func runC03(c *fw.Ctx) {
 				c03Check(c, fmt.Sprintf("tokgap:%s/%d/%d", k, ti, vi), "token-gap-comment", in, src)
 			}
 		}
+	}
+	// several files printed in turn by one FileRestorer (it is reset by every RestoreFile): each
+	// output is judged like a single print, provided the file on its own is fine
+	var seqSrcs [][]byte
+	for _, k := range zkeys {
+		seqSrcs = append(seqSrcs, []byte(zoo[k]))
+	}
+	for i, p := range files {
+		if i%4 == 0 {
+			if src := readFile(p); src != nil && len(src) < 60000 && corpus.Parses(src) {
+				seqSrcs = append(seqSrcs, src)
+			}
+		}
+	}
+	for g := 0; g+2 < len(seqSrcs); g += 3 {
+		if !c.Mine(g / 3) {
+			continue
+		}
+		group := seqSrcs[g : g+3]
+		id := fmt.Sprintf("sequence:%d", g/3)
+		c.Case(id, func() {
+			c.Observe("transforms", "one-file-restorer-for-three-files")
+			fr := decorator.NewRestorer().FileRestorer()
+			for k, in := range group {
+				alone, aerr := rtParsePrint(in)
+				if aerr != nil {
+					return
+				}
+				if v, _, _ := c03Oracle(in, alone); v != "ok" {
+					continue // classified by the single-file workloads
+				}
+				f, err := decorator.Parse(in)
+				if err != nil {
+					return
+				}
+				var buf bytes.Buffer
+				if sig, detail := fw.Try(func() { err = fr.Fprint(&buf, f) }); sig != "" {
+					c.Violate("panic/one-file-restorer-for-three-files", sig, fmt.Sprintf("%s file #%d\n%s", id, k, detail), string(in))
+					return
+				}
+				if err != nil {
+					c.Violate("error/one-file-restorer-for-three-files", "error:file-restorer-reused", fmt.Sprintf("%s file #%d: %s", id, k, shortErr(err)), string(in))
+					return
+				}
+				if v, rule, detail := c03Oracle(in, buf.Bytes()); v == "violation" {
+					c.Violate(rule+"/one-file-restorer-for-three-files", rule+":file-restorer-reused", fmt.Sprintf("%s file #%d (printed alone it is fine): %s", id, k, detail), string(in))
+					return
+				}
+				c.Count("held", 1)
+			}
+			c.Count("inputs:one-file-restorer-for-three-files", 3)
+			c.Nontrivial(id)
+		})
 	}
 	if c.Shard == 0 {
 		c.Sample(map[string]interface{}{"transforms": c03Transforms, "note": "each case = one (file, transform) pair"})
